@@ -163,7 +163,7 @@ func renderScreen(ui *consoleui.UI, screenLines int) (crash string, err error, o
 
 func TestC22(t *testing.T) {
 	col := ev.New("C22", "rapid state machine over the real console UI (hooks feed lines to processCommand and render the "+
-		"screen like Run does): program = generated RV64IMA code (1-24 instructions, several blocks) with the real "+
+		"screen like Run does): program = generated RV64IMA code (1-24 instructions, one to several blocks) with the real "+
 		"disassembler mode and the emulation factory of main.go. Each action is one input line from a grammar: every "+
 		"command key and alias of the current mode x arity (exact, too few, too many) x argument tokens (small numbers, "+
 		"last line, line count, beyond, negative, MaxInt, overflow, not-a-number, addresses in every base, regex "+
@@ -197,7 +197,8 @@ func TestC22(t *testing.T) {
 
 	rapid.Check(t, func(t *rapid.T) {
 		col.Case()
-		p := drawRVProgram(t, 24)
+		// tiny programs too: listings shorter than the minimum height of the view
+		p := drawRVProgramMin(t, 1, 24)
 		ui, code, err := newProgramUI(p)
 		if err != nil {
 			t.Fatalf("cannot build UI: %v\n  program %s", err, p)
